@@ -111,6 +111,10 @@ pub enum G {
     Custom(u8, bool),
     /// `choice(Vec::new())` — always fails, records an expectation-free error
     EmptyChoice,
+    /// `any_ref()` (borrowing inputs only): like `any`, the token is handed out by reference
+    AnyRef,
+    /// `select_ref! { c if set.contains(c) => Tag(c) }` (borrowing inputs only)
+    SelectRef(&'static str),
     // ---- unary ---------------------------------------------------------------------------
     Map(Box<G>),
     To(Box<G>),
@@ -229,7 +233,7 @@ impl G {
     pub fn children(&self) -> Vec<&G> {
         match self {
             Just(_) | JustSeq(..) | Any | OneOf(_) | NoneOf(_) | Select(_) | End | Empty
-            | Custom(..) | EmptyChoice | JustCtx | RecRef(_) => vec![],
+            | Custom(..) | EmptyChoice | JustCtx | RecRef(_) | AnyRef | SelectRef(_) => vec![],
             Map(a) | To(a) | Ignored(a) | Filter(a) | TryMap(a) | TryMapWith(a) | OrNot(a)
             | Not(a) | Rewind(a) | Boxed(a) | ToSlice(a) | ToSpan(a) | Validate(a, _)
             | Labelled(a, _) | MapErr(a) | Memo(a) | WithState(a) | NestedDelims(a)
@@ -277,7 +281,7 @@ impl G {
         !self.any_node(&|g| {
             !matches!(
                 g,
-                Just(_) | JustSeq(..) | Any | OneOf(_) | NoneOf(_) | Select(_) | End | Empty | Custom(..) | JustCtx
+                Just(_) | JustSeq(..) | Any | OneOf(_) | NoneOf(_) | Select(_) | End | Empty | Custom(..) | JustCtx | AnyRef | SelectRef(_)
                     | Map(_) | To(_) | Ignored(_) | Filter(_) | TryMap(_) | TryMapWith(_) | Boxed(_) | ToSlice(_) | ToSpan(_)
                     | Validate(..) | Labelled(..) | MapErr(_) | Memo(_) | WithState(_) | Snd(_) | Fst(_) | MapUnit(_) | MapZ(_)
                     | SliceWith(_) | SpanWith(_) | Mid(_) | Then(..) | IgnoreThen(..) | ThenIgnore(..) | PaddedBy(..)
@@ -334,7 +338,7 @@ pub fn well_formed_rec(g: &G, binders: u8) -> bool {
 /// restriction of C02/C20: chumsky's debug progress assertions fire by design otherwise).
 pub fn nullable(g: &G) -> bool {
     match g {
-        Just(_) | JustSeq(..) | Any | OneOf(_) | NoneOf(_) | Select(_) | JustCtx => false,
+        Just(_) | JustSeq(..) | Any | OneOf(_) | NoneOf(_) | Select(_) | JustCtx | AnyRef | SelectRef(_) => false,
         End | Empty => true,
         Custom(k, ok) => *k % 10 == 0 && *ok,
         EmptyChoice => false,
@@ -563,6 +567,8 @@ impl fmt::Display for G {
             Just(c) => write!(f, "just({})", c),
             JustSeq(a, c) => write!(f, "justseq({}{})", a, c),
             Any => write!(f, "any"),
+            AnyRef => write!(f, "any_ref"),
+            SelectRef(s) => write!(f, "select_ref({})", s),
             OneOf(s) => write!(f, "one_of({})", s),
             NoneOf(s) => write!(f, "none_of({})", s),
             Select(s) => write!(f, "select({})", s),
@@ -842,17 +848,19 @@ impl<'a> P<'a> {
                 JustSeq(a, c)
             }
             "any" => Any,
+            "any_ref" => AnyRef,
             "end" => End,
             "empty" => Empty,
             "empty_choice" => EmptyChoice,
             "just_ctx" => JustCtx,
-            "one_of" | "none_of" | "select" => {
+            "one_of" | "none_of" | "select" | "select_ref" => {
                 self.eat('(')?;
                 let s = leak(self.until(&[')']));
                 self.eat(')')?;
                 match id.as_str() {
                     "one_of" => OneOf(s),
                     "none_of" => NoneOf(s),
+                    "select_ref" => SelectRef(s),
                     _ => Select(s),
                 }
             }
